@@ -240,7 +240,8 @@ theorem enterNextF_spec (hN : NK a0 N) (x : FCfg) (s : SObj) (h : ArmOk a0 x) (h
         · rw [k2, upd_c, o4, y2]
         · rw [hst, k2, upd_c, o2, y3]; exact he.ft ht
       · right
-        refine ⟨faultExc, k1, ?_, ?_, Or.inl ⟨rfl, k3, k4, k7⟩⟩
+        have hm7 : mainHK a0.hk = true := by rcases k7 with h | h <;> rw [h] <;> rfl
+        refine ⟨faultExc, k1, ?_, ?_, Or.inl ⟨rfl, k3, k4, hm7⟩⟩
         · rcases k2 with k2 | k2
           · rw [k2]; exact y1
           · rw [k2, upd_c, releasePause_closed]; exact y1
